@@ -1425,6 +1425,30 @@ pub fn rebuild(lvl: &PriceLevel, path: u8, lie: u8) -> Result<PriceLevel, String
             };
             PriceLevel::from_str(&t).map_err(|e| e.to_string())
         }
+        7 => {
+            // a self-consistent package whose stored aggregates lie: the checksum is recomputed
+            // over the lying snapshot (SHA-256 of its JSON, as the format defines it), so
+            // validation passes and only "aggregates are derived, never believed" protects
+            use sha2::{Digest as _, Sha256};
+            let mut pkg = lvl.snapshot_package().map_err(|e| e.to_string())?;
+            pkg.snapshot.visible_quantity = lie_vis(lie, pkg.snapshot.visible_quantity);
+            pkg.snapshot.hidden_quantity = lie_hid(lie, pkg.snapshot.hidden_quantity);
+            pkg.snapshot.order_count = lie_cnt(lie, pkg.snapshot.order_count as u64) as usize;
+            let payload = serde_json::to_vec(&pkg.snapshot).map_err(|e| e.to_string())?;
+            pkg.checksum = format!("{:x}", Sha256::digest(&payload));
+            if pkg.validate().is_err() {
+                // the format's checksum rule is not what this harness assumes: fall back to the
+                // library-made package (nothing to lie about then)
+                let p = lvl.snapshot_package().map_err(|e| e.to_string())?;
+                return PriceLevel::from_snapshot_package(p).map_err(|e| e.to_string());
+            }
+            if lie % 2 == 0 {
+                PriceLevel::from_snapshot_package(pkg).map_err(|e| e.to_string())
+            } else {
+                let j = pkg.to_json().map_err(|e| e.to_string())?;
+                PriceLevel::from_snapshot_json(&j).map_err(|e| e.to_string())
+            }
+        }
         _ => {
             let mut d = PriceLevelData::from(lvl);
             d.visible_quantity = lie_vis(lie, d.visible_quantity);
